@@ -85,7 +85,31 @@ func Run(p *Plan, ch simsync.Chooser) *Outcome {
 		}
 	}
 	var freshV *detsim.Violation
-	if p.FreshAt > 0 && p.FreshAt <= len(p.Clients[0]) {
+	if p.Young {
+		var all []Call
+		var want []refT
+		seen := map[string]bool{}
+		for c := range p.Clients {
+			for i, cl := range p.Clients[c] {
+				if k := cl.Key(); !seen[k] {
+					seen[k] = true
+					all = append(all, cl)
+					want = append(want, refs[c][i])
+				}
+			}
+		}
+		young := orc.Young(all)
+		out.Counters.Add("references_cross_checked_against_a_young_oracle", int64(len(all)))
+		for i := range all {
+			if !SameResult(young[i].Canon, want[i].canon, true) {
+				freshV = &detsim.Violation{Class: "reference-unstable", Sub: "history",
+					Detail: fmt.Sprintf("%s, executed alone (fresh pools, always-miss cache), returns\n  %s\nin the long-lived oracle process, which has evaluated other calls before, and\n  %s\nin a brand-new process that evaluated this history's calls in reverse order: even in isolation the result depends on earlier calls",
+						all[i], clip(want[i].canon), clip(young[i].Canon))}
+				break
+			}
+		}
+	}
+	if freshV == nil && p.FreshAt > 0 && p.FreshAt <= len(p.Clients[0]) {
 		cl := p.Clients[0][p.FreshAt-1]
 		want := refs[0][p.FreshAt-1]
 		got := orc.Fresh(cl)
